@@ -1,7 +1,7 @@
 (* EXTRACT-Z: c17 run_c17 *)
 (* Executable entry point of the C17 correspondence: wire case -> wire result.
-   first integer = machine: 1 IO state (Maths/IOState.v). *)
-From OM Require Import Base.Lists Base.Wire Maths.IOState.
+   first integer = machine: 1 IO state (Maths/IOState.v), 2 Geometry, 3 Sensors, 4 Mesh (Geom/*State.v). *)
+From OM Require Import Base.Lists Base.Wire Maths.IOState Geom.GeomState Geom.SensorsState Geom.MeshState.
 Local Open Scope Z_scope.
 
 Definition getFmt : dec fmt :=
@@ -52,8 +52,44 @@ Definition run_io (w : wire) : wire :=
        let '(t, f) := trace3 c W (match mode with O => false | _ => true end) ops (pst0, fs) in
        t ++ map outEntry f).
 
+Definition getBool : dec bool := do x <- getN; ret (negb (Nat.eqb x 0)).
+Definition lenpref (l : list (list Z)) : wire := flat_map (fun o => Z.of_nat (length o) :: o) l.
+
+(* ---- machine 2: Geometry ---- *)
+Definition getGdesc : dec gdesc :=
+  do st <- getZ; do vs <- getVec; do nm <- getN; do nd <- getN; do fin <- getBool; do mk <- getBool;
+  do inv <- getVec; do ni <- getVec; do pa <- getN; do ti <- getN; do cb <- getN; do pr <- getN; do ne <- getBool; do hm <- getZ;
+  ret {| d_status := st; d_verts := vs; d_nmeshes := nm; d_ndomains := nd; d_finalized := fin; d_marks := mk; d_inv_add := inv;
+         d_noniso := ni; d_parts := pa; d_tri_idx := ti; d_cbt := cb; d_pairs := pr; d_nested := ne; d_headmat := hm |}.
+Definition getGop : dec gop := do o <- getN; do i <- getN; match o with O => ret (GLoad i) | _ => ret GHeadMat end.
+Definition run_geom (w : wire) : wire :=
+  run_dec (do fx <- getBool; do W <- getList getGdesc; do ops <- getList getGop; ret (fx, W, ops)) w
+    (fun '(fx, W, ops) => lenpref (g_trace fx W ops gst0)).
+
+(* ---- machine 3: Sensors ---- *)
+Definition getSdesc : dec sdesc :=
+  do st <- getZ; do lb <- getBool; do nm <- getVec; do nl <- getN; do nc <- getN;
+  ret {| s_status := st; s_labeled := lb; s_names := nm; s_nlin := nl; s_ncol := nc |}.
+Definition run_sens (w : wire) : wire :=
+  run_dec (do fx <- getBool; do ge <- getBool; do W <- getList getSdesc; do ops <- getList getN; ret (fx, ge, W, ops)) w
+    (fun '(fx, ge, W, ops) => lenpref (s_trace fx ge W ops sst0)).
+
+(* ---- machine 4: Mesh ---- *)
+Definition getMdesc : dec mdesc :=
+  do st <- getZ; do vs <- getVec; do ts <- getList (do a <- getN; do b <- getN; do c <- getN; ret (a, b, c)); do so <- getZ;
+  ret {| m_status := st; m_vs := vs; m_ts := ts; m_source := so |}.
+Definition getMop : dec mop := do o <- getN; do i <- getN; match o with O => ret (MLoad i) | _ => ret MSurfSource end.
+Definition run_mesh (w : wire) : wire :=
+  run_dec (do cb <- getN; do W <- getList getMdesc; do ops <- getList getMop; ret (cb, W, ops)) w
+    (fun '(cb, W, ops) =>
+       let c := {| clear_flags := Nat.odd cb; clear_private_geometry := Nat.odd (Nat.div2 cb) |} in
+       lenpref (m_trace c W ops mst0)).
+
 Definition run_c17 (w : wire) : wire :=
   match w with
   | 1 :: w' => run_io w'
+  | 2 :: w' => run_geom w'
+  | 3 :: w' => run_sens w'
+  | 4 :: w' => run_mesh w'
   | _ => [-1]
   end.
